@@ -58,13 +58,17 @@ let run_case (case : string) : string =
   let k0 = if head = "unique" || head = "unique_async" then Unique else Shared in
   let o = ref (obs_new k0 O) in
   let s = ref (s_new k0 O) in
+  let is_async = (String.length head > 6 && String.sub head (String.length head - 6) 6 = "_async") in
+  let classes = ref [] in
   let registered : (int, bool) Hashtbl.t = Hashtbl.create 8 in
   let res = List.map (fun opt ->
       let name, a = split_op opt in
       let x = parse_op name a in
       let expect = sstep veq heq vdefault !s x in
       (match expect with Some (s', _) -> s := s' | None -> ());
-      match step veq heq vdefault !o x with
+      if is_async && async_subscriber_double_count !o x && not (List.mem "async_subscriber_double_count" !classes) then
+        classes := "async_subscriber_double_count" :: !classes;
+      match (if is_async then astep veq heq vdefault !o x else step veq heq vdefault !o x) with
       | Panic -> "SKIP" ^ (if expect <> None then " ok:spec=0" else "")
       | Ok ((o', r), w) ->
         let ver_changed = (o'.ver <> !o.ver) in
@@ -77,6 +81,6 @@ let run_case (case : string) : string =
         let wake_bad = ver_changed &&
                        Hashtbl.fold (fun k was acc -> acc || (was && (try Hashtbl.find registered k with Not_found -> false))) before false in
         text ^ show_wakes w ^ (if spec_bad then " ok:spec=0" else "") ^ (if wake_bad then " ok:wake=0" else "")) ops in
-  String.concat " ; " res
+  String.concat " ; " res ^ String.concat "" (List.map (fun c -> " class=" ^ c) !classes)
 
 let run_line (line : string) = print_string (run_case line); print_newline ()
